@@ -11,7 +11,7 @@ traces,results,st=checklib.run_traces(pid,scs)
 cnt=collections.Counter(); ex={}
 for i,(sc,tr) in enumerate(zip(scs,traces)):
     for f in results[i]["fails"]:
-        key=(sc["inds"][-1].kind, f[1], f[3] if f[1] in("exc","stage_err") else "", ",".join(sorted(checklib.props_of(f,tr,sc))))
+        key=((sc["inds"][-1].kind if sc["inds"] else "list"), f[1], f[3] if f[1] in("exc","stage_err") else "", ",".join(sorted(checklib.props_of(f,tr,sc))))
         cnt[key]+=1; ex.setdefault(key,(sc["id"],f))
 for k,v in sorted(cnt.items()): print(v,k,ex[k])
 print("unchecked",sum(r["unch"] for r in results.values()),"ok",sum(r["nchk"] for r in results.values()))
